@@ -105,6 +105,7 @@ def execute(rec):
             out = {"status": "excluded", "excluded": bad[:3], "violation": {"clause": v.clause, "detail": d}}
         else:
             out = {"status": "violation", "violation": {"clause": v.clause, "detail": d}}
+    seam.uninstall()
     out["digest"] = m.digest()
     m.stats["checks"] = seam.total
     m.stats["faults_fired"] = len(seam.fired)
